@@ -41,7 +41,7 @@ def shards(tier, seed):
 def universe(seed, uid):
     """class tree + signatures that declare bases"""
     rng = core.rng_for(seed, PROP, 'uni%d' % uid)
-    o = gen.Opts(attrs=False, nested_arrays=0.0, enums=False, seqs=True, facets=False,
+    o = gen.Opts(sub_names=True, attrs=False, nested_arrays=0.0, enums=False, seqs=True, facets=False,
                  prims=['Integer', 'Unicode', 'Boolean', 'Date', 'Integer32', 'Double', 'Uuid'])
     ns = 'urn:vf:c16:u%d' % uid
     tns = ns
